@@ -58,8 +58,9 @@ def rule_R11_switch(ctx, rep, config="c-lib", funcs=None):
     rep.floor("R11-switch", "node-kind switches", n, len(funcs or DISPATCHERS))
 
 
-def _path_counts(f, counted, start_block):
-    """min/max number of `counted' instructions executed on paths start_block -> ret; loops must not contain counted instructions"""
+def _path_counts(f, counted, start_block, dead=()):
+    """min/max number of `counted' instructions executed on paths start_block -> ret; loops must not contain counted instructions;
+    edges in `dead' are not followed"""
     for L in f.loops():
         for bn in L["body"]:
             if any(i in counted for i in f.bmap[bn].insts):
@@ -80,7 +81,7 @@ def _path_counts(f, counted, start_block):
             return memo[bn]
         lo, hi = None, None
         for s in b.succs:
-            if (bn, s) in back:
+            if (bn, s) in back or (bn, s) in dead:
                 continue
             r = go(s)
             if r is None:
@@ -98,7 +99,7 @@ def _path_counts(f, counted, start_block):
 
 def rule_R11_sweep(ctx, rep, config="c-lib"):
     rep.rule("R11-sweep", "free_tree_sweep: for a non-NULL node, on every path to a return the node itself is passed to parse_free exactly once; the terminal callback "
-                          "is called exactly once on the TERM path and never elsewhere; the node name is released exactly once on the ANODE path; free_tree_reduce sets the "
+                          "is called exactly once on the TERM path and never elsewhere; the node name is released exactly once on the ANODE path (a test `name != NULL' may skip it: the name is shared and kept in one node only); free_tree_reduce sets the "
                           "VISITED bit before any recursive call and recurses only into nodes whose bit it tested; yaep_free_tree runs reduce before sweep")
     p = ctx.prog(config)
     f = p.fn("free_tree_sweep")
@@ -127,7 +128,20 @@ def rule_R11_sweep(ctx, rep, config="c-lib"):
         for (what, lst, want) in (("node", frees_node, 1), ("name", frees_name, 1 if kind == 3 else 0), ("termcb", cbs, None)):
             n += 1
             key = "free_tree_sweep/%s/%s" % (kname, what)
-            r = _path_counts(f, set(lst), start)
+            dead = set()
+            if what == "name":
+                # the name is shared by the nodes of a rule and free_tree_reduce leaves it in one of them only: a test `name != NULL' may skip the release
+                for b in f.rblocks():
+                    t = b.term
+                    if t is None or t.op != "br" or len(t.ops) != 3:
+                        continue
+                    c = f.inst(t.ops[0])
+                    if c is None or c.op != "icmp" or c.d["pred"] not in ("eq", "ne") or strip_casts(f, c.ops[1]).get("k") != "null":
+                        continue
+                    lp = loaded_from(f, c.ops[0])
+                    if lp is not None and lp.last_field() in ("_yaep_anode_name.name", "yaep_anode.name") and lp.root == ("a", 0):
+                        dead.add((b.name, t.ops[1]["v"] if c.d["pred"] == "ne" else t.ops[2]["v"]))
+            r = _path_counts(f, set(lst), start, dead)
             if r is None:
                 rep.violation("R11-sweep", key, "a %s release/callback of free_tree_sweep sits inside a loop" % what, where=f.where())
                 continue
